@@ -157,7 +157,7 @@ def msg_response_vote(ctx):
     ctx.prove(t1 == t0, 'C03:R1.term-unchanged')
     ctx.prove(Eq(so.get('votedForNodeId'), old.get('votedForNodeId')), 'C03:R1.vote-unchanged')
     ctx.prove(Implies(counted, v1 == v0 + 1), 'C03:R3.vote-counted-once')
-    ctx.prove(Implies(Not(counted), And(v1 == v0, r1 == r0)), 'C03:R3.stale-vote-ignored')
+    ctx.prove(Implies(Not(counted), And(v1 == v0, r1 == r0)), 'C03+C20:R3.stale-vote-ignored')
     ctx.prove(Implies(And(r1 == LEADER, r0 != LEADER), And(counted, majority(v1, nv))), 'C03:R3.leader-only-with-majority')
     ctx.prove(Implies(And(counted, Not(majority(v0 + 1, nv))), r1 == CAND), 'C03:R3.stays-candidate-below-majority')
     ctx.prove(Implies(so.get('selfNode').isnone, r1 == FOLL), 'C18:O18.1.readonly-stays-follower')
@@ -179,6 +179,9 @@ def msg_response_vote(ctx):
         ctx.prove(And(*[Implies(voters[i], lr.pres[i]) for i in range(so.U)]), 'C20:R4.lastResponse-initialised')
     else:
         ctx.prove(log_same(olog, log), 'C03+C04:response_vote.log-unchanged')
+        # O20.2: the response times the fallback check reads are refreshed by a vote only at the moment the node becomes leader
+        for n_, b_ in field_unchanged(old, so, ['lastResponseTime', 'raftMatchIndex', 'raftNextIndex']):
+            ctx.prove(b_, 'C20+C04:O20.2.vote-without-election-leaves-leader-maps.%s' % n_)
     common_frame(ctx, old, so, ['raftCommitIndex', 'raftLastApplied', 'otherNodes'], 'C03+C04:response_vote')
     so.prove_inv('*:response_vote')
 
